@@ -122,7 +122,7 @@ func fmtPayloads(pls []lorawan.LinkADRReqPayload) string {
 
 func runC14(c *core.Ctx) {
 	cfgs := allBandCfgs()
-	hists := c.N(40, 1200)
+	hists := c.N(40, 6000)
 	for ci, cfg := range cfgs {
 		if cfg.Dwell && cfg.Name != "AS923" && cfg.Name != "AU915" {
 			continue // dwell-time does not influence channel planning; keep two representatives
